@@ -73,5 +73,10 @@ ZOO = {
         _e("owner", attrs=[("refs", agg("SET", named("base"), 0, None), False, None), ("one", named("base"), True, None)]),
         _e("tgt", ["base"], inverse=[{"name": "owners", "agg": {"agg": "SET", "lo": 0, "hi": None}, "entity": "owner", "attr": "refs"},
                                      {"name": "the_one", "agg": {"agg": "BAG", "lo": 0, "hi": None}, "entity": "owner", "attr": "one"}]),
+        # diamond below an entity that declares inverse attributes (the inverses are inherited along two paths)
+        _e("tgt_a", ["tgt"], attrs=[("ta", T("INTEGER"), True, None)]),
+        _e("tgt_b", ["tgt"], attrs=[("tb", T("STRING"), True, None)],
+           inverse=[{"name": "via_b", "agg": {"agg": "SET", "lo": 0, "hi": None}, "entity": "owner", "attr": "refs"}]),
+        _e("tgt_ab", ["tgt_a", "tgt_b"], attrs=[("tab", T("REAL"), True, None)]),
     ],
 }
